@@ -305,12 +305,35 @@ def run_workflow(case):
         else:
             res.ok("state: idempotent, non-witness unsigned tx, unknown pairs & xpubs survive", nontrivial=(label, "state", tuple(sorted(S))))
         # finalize + extract
+        post = {}
+
         def fin():
             p = parse_lib(raw)
             p.finalize()
-            return p.final_tx()
+            post["finalized"] = p.serialize()
+            tx = p.final_tx()
+            # extraction must leave the PSBT itself untouched and serialisable
+            post["after_extract"] = p.serialize()
+            return tx
 
         ft = attempt(fin)
+        if not isinstance(ft, Rejected):
+            bad = None
+            if post.get("after_extract") != post.get("finalized"):
+                bad = "final_tx() changed the serialisation of the PSBT it was extracted from"
+            else:
+                try:
+                    psbtref.parse(post["finalized"])
+                except Exception as e:
+                    bad = f"finalized PSBT not readable by the reference BIP174 reader: {e}"
+                else:
+                    again = attempt(lambda: parse_lib(post["finalized"]).serialize())
+                    if again != post["finalized"]:
+                        bad = "finalized PSBT does not re-serialise to the same bytes"
+            if bad:
+                res.violation(f"C10/{eng}/post-extraction/{cfg['stype']}", vc, bad, "unchanged, readable, idempotent", f"{label}: subset {sorted(S)}: {bad}")
+            else:
+                res.ok("finalized PSBT: unchanged by extraction, readable, idempotent")
         need = m if cfg["stype"] in MULTI else 1
         if len(S) >= need:
             if isinstance(ft, Rejected):
